@@ -40,10 +40,13 @@ Definition srv_cmp (a b : server) : outcome Z :=
 Definition srv_lt (a b : server) : bool :=
   match srv_cmp a b with Ok z => z <? 0 | _ => false end.
 
+(* ares_slist_node_push on level 0: walk right while the new node is strictly greater, i.e. the
+   node is linked BEFORE the first element that is not smaller (before its equals).  Equal keys
+   occur only transiently inside ares_servers_update. *)
 Fixpoint insert_sorted (s : server) (l : list server) : list server :=
   match l with
   | [] => [s]
-  | x :: r => if srv_lt s x then s :: l else x :: insert_sorted s r
+  | x :: r => if srv_lt x s then x :: insert_sorted s r else s :: l
   end.
 
 Fixpoint remove_addr (a : Z) (l : list server) : list server :=
@@ -158,6 +161,7 @@ Record attempt := {
                                 in order of creation) *)
   at_server : Z;             (* address the transmission went to *)
   at_try : Z;                (* query->try_count at the time of sending *)
+  at_err : Z;                (* query->error_status: status of the query's last failed attempt *)
   at_probe : bool            (* probe copy: requested server, NORETRY | NOCACHE *)
 }.
 
@@ -201,12 +205,12 @@ Definition admissible (c : choices) : bool :=
   (0 <=? c_rot c) && (c_rot c <? 256) && (0 <=? c_probe c) && (c_probe c <? 65536).
 
 (* ares_send_query(NULL, query): fresh attempt of query [label] with [try] attempts behind it *)
-Definition send_fresh (ch : chan) (label : nat) (try : Z) (c : choices) : outcome (chan * list obs) :=
+Definition send_fresh (ch : chan) (label : nat) (try : Z) (err : Z) (c : choices) : outcome (chan * list obs) :=
   match choose_server (ch_rotate ch) (c_rot c) (ch_servers ch) with
   | None => Ok (ch, [ODone label ARES_ENOSERVER])
   | Some s =>
     let ch1 := set_inflight ch (ch_inflight ch ++
-                 [{| at_label := label; at_server := sv_addr s; at_try := try; at_probe := false |}]) in
+                 [{| at_label := label; at_server := sv_addr s; at_try := try; at_err := err; at_probe := false |}]) in
     let tx := OTx label (sv_addr s) false in
     if (sv_fail s =? 0) && (try =? 0) then
       do p <- ares_probe_failed_server (ch_chance ch) (ch_now ch) (c_probe c) s (ch_servers ch);
@@ -220,20 +224,25 @@ Definition send_fresh (ch : chan) (label : nat) (try : Z) (c : choices) : outcom
         let pl := ch_next_label ch1 in
         let ch2 := bump_label (set_servers ch1 (replace_addr ps' (ch_servers ch1))) in
         let ch3 := set_inflight ch2 (ch_inflight ch2 ++
-                     [{| at_label := pl; at_server := sv_addr ps; at_try := 0; at_probe := true |}]) in
+                     [{| at_label := pl; at_server := sv_addr ps; at_try := 0; at_err := ARES_SUCCESS; at_probe := true |}]) in
         Ok (ch3, [tx; OTx pl (sv_addr ps) true])
       end
     else Ok (ch1, [tx])
   end.
 
-(* ares_requeue_query after a failed attempt [a] (its server already demoted) *)
+(* the retry budget (servers x tries) is not used up and the query may be retried *)
+Definition requeue_sends (ch : chan) (a : attempt) : bool :=
+  (at_try a + 1 <? Z.of_nat (length (ch_servers ch)) * ch_tries ch) && negb (at_probe a).
+
+(* ares_requeue_query for the query of attempt [a]; [status] = ARES_SUCCESS when the attempt
+   did not fail but its connection went away (server removed from the configuration) *)
 Definition requeue (ch : chan) (a : attempt) (status : Z) (c : choices) : outcome (chan * list obs) :=
-  let max_tries := Z.of_nat (length (ch_servers ch)) * ch_tries ch in
+  let err := if status =? ARES_SUCCESS then at_err a else status in
   let try' := at_try a + 1 in
-  if (try' <? max_tries) && negb (at_probe a) then send_fresh ch (at_label a) try' c
+  if requeue_sends ch a then send_fresh ch (at_label a) try' err c
   else
     (* end_query(channel, NULL, ...): probe_pending of the probed server is NOT cleared *)
-    Ok (ch, if at_probe a then [] else [ODone (at_label a) status]).
+    Ok (ch, if at_probe a then [] else [ODone (at_label a) (if err =? ARES_SUCCESS then ARES_ETIMEOUT else err)]).
 
 Fixpoint remove_attempt (label : nat) (l : list attempt) : list attempt :=
   match l with
@@ -262,18 +271,81 @@ Fixpoint dedup (seen : list Z) (l : list Z) : list Z :=
   | a :: r => if existsb (Z.eqb a) seen then dedup seen r else a :: dedup (a :: seen) r
   end.
 
-(* ares_servers_update: known servers keep their state and get their new index, new servers
-   start clean, servers no longer configured are dropped *)
-Fixpoint build_servers (old : list server) (addrs : list Z) (idx : Z) (acc : list server) : list server :=
+(* ares_servers_update, first loop: for every address of the new configuration (duplicates
+   skipped, ares_server_isdup) in order: a server already known (ares_server_find: same address;
+   ports are the channel defaults throughout) gets its NEW index and, if that changed, is taken
+   out and pushed back (ares_slist_node_reinsert AFTER the key changed); an unknown one is
+   created with no failures.  Servers not (yet) visited keep their OLD index, so equal keys
+   are possible in between. *)
+Definition set_idx (s : server) (idx : Z) : server :=
+  {| sv_addr := sv_addr s; sv_idx := idx; sv_fail := sv_fail s; sv_retry := sv_retry s; sv_probe := sv_probe s |}.
+
+Definition fresh_server (a idx : Z) : server :=
+  {| sv_addr := a; sv_idx := idx; sv_fail := 0; sv_retry := (0, 0); sv_probe := false |}.
+
+Fixpoint update_loop (addrs : list Z) (idx : Z) (l : list server) : list server :=
   match addrs with
-  | [] => acc
+  | [] => l
   | a :: r =>
-    let s := match find_addr a old with
-             | Some o => {| sv_addr := a; sv_idx := idx; sv_fail := sv_fail o; sv_retry := sv_retry o;
-                            sv_probe := sv_probe o |}
-             | None => {| sv_addr := a; sv_idx := idx; sv_fail := 0; sv_retry := (0, 0); sv_probe := false |}
-             end in
-    build_servers old r (idx + 1) (insert_sorted s acc)
+    let l' := match find_addr a l with
+              | Some s => if sv_idx s =? idx then l else reinsert (set_idx s idx) l
+              | None => insert_sorted (fresh_server a idx) l
+              end in
+    update_loop r (idx + 1) l'
+  end.
+
+Definition configured (addrs : list Z) (s : server) : bool := existsb (Z.eqb (sv_addr s)) addrs.
+
+(* list_changed: a server was created or a stale one removed (then the query cache is flushed) *)
+Definition update_changed (old : list server) (addrs : list Z) : bool :=
+  existsb (fun a => match find_addr a old with Some _ => false | None => true end) addrs ||
+  existsb (fun s => negb (configured addrs s)) old.
+
+(* the table after the update: the servers of the new configuration *)
+Definition servers_update (old : list server) (addrs : list Z) : list server :=
+  filter (configured addrs) (update_loop (dedup [] addrs) 0 old).
+
+(* the servers dropped by the update, in list order (the order ares_servers_remove_stale
+   destroys them in) *)
+Definition servers_stale (old : list server) (addrs : list Z) : list server :=
+  filter (fun s => negb (configured addrs s)) (update_loop (dedup [] addrs) 0 old).
+
+(* attempts whose connection is closed by destroying the stale servers: per server, in the
+   order the queries were sent on it *)
+Definition victims (stale : list server) (inflight : list attempt) : list attempt :=
+  flat_map (fun s => filter (fun a => at_server a =? sv_addr s) inflight) stale.
+
+Definition nth_choice (cs : list choices) (n : nat) : choices :=
+  nth n cs {| c_rot := 0; c_probe := 0 |}.
+
+(* ares_close_connection -> ares_requeue_queries: every query of the closed connection goes
+   through ares_requeue_query(status = ARES_SUCCESS, inc_try_count = TRUE) *)
+Fixpoint requeue_all (ch : chan) (vs : list attempt) (cs : list choices) (n : nat)
+  : outcome (chan * list obs) :=
+  match vs with
+  | [] => Ok (ch, [])
+  | a :: r =>
+    let ch0 := set_inflight ch (remove_attempt (at_label a) (ch_inflight ch)) in
+    do s <- requeue ch0 a ARES_SUCCESS (nth_choice cs n);
+    (* a draw is consumed only by a query that is actually sent again *)
+    do t <- requeue_all (fst s) r cs (if requeue_sends ch0 a then S n else n);
+    Ok (fst t, snd s ++ snd t)
+  end.
+
+(* The PINNED ares_servers_remove_stale (before fixes/C09-stale-servers-unlink-first.patch)
+   destroys the stale servers one at a time while the others are still in the list, so a
+   re-queued query can be sent to a server that is about to be removed, and re-queued again.
+   Used only for the refutation theorem and for diagnostics. *)
+Fixpoint remove_stale_pinned (ch : chan) (stale : list server) (cs : list choices) (n : nat)
+  : outcome (chan * list obs) :=
+  match stale with
+  | [] => Ok (ch, [])
+  | s :: r =>
+    let ch1 := set_servers ch (remove_addr (sv_addr s) (ch_servers ch)) in
+    let vs := filter (fun a => at_server a =? sv_addr s) (ch_inflight ch1) in
+    do x <- requeue_all ch1 vs cs n;
+    do y <- remove_stale_pinned (fst x) r cs (n + length (filter (requeue_sends ch1) vs));
+    Ok (fst y, snd x ++ snd y)
   end.
 
 Inductive event :=
@@ -282,7 +354,8 @@ Inductive event :=
 | EvRefuse (label : nat) (status : Z) (c : choices)  (* ... answered SERVFAIL / REFUSED / NOTIMP *)
 | EvTimeout (label : nat) (c : choices)  (* ... times out *)
 | EvAdvance (ms : Z)                     (* the clock moves *)
-| EvSetServers (addrs : list Z).         (* ares_set_servers_*() with nothing in flight *)
+| EvSetServers (addrs : list Z) (cs : list choices).
+                                         (* ares_set_servers_*(); [cs]: draws of the re-queued attempts *)
 
 Definition Unsupported : Z := -2.        (* event outside the modelled fragment *)
 
@@ -291,7 +364,7 @@ Definition step (ch : chan) (ev : event) : outcome (chan * list obs) :=
   | EvSend c =>
     let label := ch_next_label ch in
     if Nat.eqb (length (ch_servers ch)) 0 then Ok (bump_label ch, [ODone label ARES_ENOSERVER])
-    else send_fresh (bump_label ch) label 0 c
+    else send_fresh (bump_label ch) label 0 ARES_SUCCESS c
   | EvAnswer label =>
     match find_attempt label (ch_inflight ch) with
     | None => Err Unsupported
@@ -317,12 +390,21 @@ Definition step (ch : chan) (ev : event) : outcome (chan * list obs) :=
     Ok ({| ch_servers := ch_servers ch; ch_rotate := ch_rotate ch; ch_tries := ch_tries ch;
            ch_chance := ch_chance ch; ch_delay := ch_delay ch; ch_now := t;
            ch_inflight := ch_inflight ch; ch_next_label := ch_next_label ch |}, [])
-  | EvSetServers addrs =>
-    match ch_inflight ch with
-    | _ :: _ => Err Unsupported
-    | [] => Ok (set_servers ch (build_servers (ch_servers ch) (dedup [] addrs) 0 []), [OServers addrs])
-    end
+  | EvSetServers addrs cs =>
+    (* with fixes/C09-stale-servers-unlink-first.patch: all stale servers are unlinked first,
+       then destroyed (connections closed, their queries re-queued) in list order *)
+    let keep := servers_update (ch_servers ch) addrs in
+    let vs := victims (servers_stale (ch_servers ch) addrs) (ch_inflight ch) in
+    do r <- requeue_all (set_servers ch keep) vs cs 0;
+    Ok (fst r, OServers addrs :: snd r)
   end.
+
+(* EvSetServers as the pinned code performs it *)
+Definition set_servers_pinned (ch : chan) (addrs : list Z) (cs : list choices) : outcome (chan * list obs) :=
+  let l1 := update_loop (dedup [] addrs) 0 (ch_servers ch) in
+  let stale := filter (fun s => negb (configured addrs s)) l1 in
+  do r <- remove_stale_pinned (set_servers ch l1) stale cs 0;
+  Ok (fst r, OServers addrs :: snd r).
 
 Fixpoint run (ch : chan) (evs : list event) : outcome (chan * list obs) :=
   match evs with
@@ -334,7 +416,7 @@ Fixpoint run (ch : chan) (evs : list event) : outcome (chan * list obs) :=
   end.
 
 Definition init_chan (addrs : list Z) (rotate : bool) (tries chance delay : Z) (now : Z * Z) : chan :=
-  {| ch_servers := build_servers [] (dedup [] addrs) 0 []; ch_rotate := rotate; ch_tries := tries;
+  {| ch_servers := servers_update [] addrs; ch_rotate := rotate; ch_tries := tries;
      ch_chance := chance; ch_delay := delay; ch_now := now; ch_inflight := []; ch_next_label := 0 |}.
 
 (* ------------------------------------------------------------------------------------ *)
